@@ -73,6 +73,9 @@ pub fn cases(ctx: &Ctx) -> Vec<Case> {
         ("explicit, first VR matches the dictionary", Ts::Ele, vec![8,0,8,0, b'C',b'S',2,0, b'A',b'B', 0x10,0,0x20,0, b'L',b'O',2,0, b'I',b'D']),
         ("explicit, first element (0008,0008) written as UN (known finding)", Ts::Ele, vec![8,0,8,0, b'U',b'N',0,0, 4,0,0,0, b'A',b'B',b'C',b'D']),
         ("explicit, xs attribute written as SS", Ts::Ele, vec![0x28,0,0x06,0x01, b'S',b'S',2,0, 0xff,0xff, 0x10,0,0x20,0, b'L',b'O',2,0, b'I',b'D']),
+        ("explicit, ox attribute (waveform padding) written as OB", Ts::Ele, vec![0,0x54,0x0a,0x10, b'O',b'B',0,0, 2,0,0,0, 1,2, 0x10,0,0x20,0, b'L',b'O',2,0, b'I',b'D']),
+        ("explicit, LUT data written as US", Ts::Ele, vec![0x28,0,0x06,0x30, b'U',b'S',2,0, 1,0, 0x10,0,0x20,0, b'L',b'O',2,0, b'I',b'D']),
+        ("explicit, native pixel data written as OB", Ts::Ele, vec![0xe0,0x7f,0x10,0, b'O',b'B',0,0, 2,0,0,0, 1,2]),
         ("explicit, private first element", Ts::Ele, vec![9,0,0x10,0x10, b'O',b'B',0,0, 2,0,0,0, 1,2, 0x10,0,0x20,0, b'L',b'O',2,0, b'I',b'D']),
         ("explicit, unknown VR code in the first element", Ts::Ele, vec![8,0,8,0, b'Z',b'Z',0,0, 2,0,0,0, b'A',b'B']),
         ("implicit, ordinary", Ts::Ile, vec![8,0,8,0, 2,0,0,0, b'A',b'B', 0x10,0,0x20,0, 2,0,0,0, b'I',b'D']),
@@ -99,7 +102,15 @@ pub fn cases(ctx: &Ctx) -> Vec<Case> {
                 let first = match k {
                     0..=2 => { first_kind = "dict-vr"; pick_dict(&mut r, &p, vr).map(|t| Node::Elem { tag: t, vr, data: value_bytes(&mut r, vr, Some(false)) }) }
                     3 => { first_kind = "private"; Some(Node::Elem { tag: (0x0009, r.range(0x1000, 0x10ff) as u16), vr, data: value_bytes(&mut r, vr, Some(false)) }) }
-                    4 => { first_kind = "xs-as-ss"; Some(Node::Elem { tag: *r.pick(&p.xs), vr: if r.coin() { VR::SS } else { VR::US }, data: vec![1, 0] }) }
+                    4 => { first_kind = "multi-vr"; // attributes whose dictionary entry allows two VRs, written with either
+                        let (tag, a, b) = match r.below(6) {
+                            0 | 1 => (*r.pick(&p.xs), VR::US, VR::SS),
+                            2 => ((0x5400, *r.pick(&[0x100Au16, 0x1010])), VR::OB, VR::OW),
+                            3 => ((0x0028, 0x3006), VR::US, VR::OW),
+                            4 => ((0x7FE0, 0x0010), VR::OB, VR::OW),
+                            _ => ((0x6000 + 2 * r.below(4) as u16, 0x3000), VR::OB, VR::OW),
+                        };
+                        Some(Node::Elem { tag, vr: if r.coin() { a } else { b }, data: vec![1, 0, 2, 0] }) }
                     5 | 6 => { first_kind = "other-vr"; // a VR which is (usually) not the dictionary's: UN most often
                         let other = if r.coin() { VR::UN } else { loop { let v = *r.pick(&ALL_VRS); if v != VR::SQ { break v; } } };
                         pick_dict(&mut r, &p, vr).map(|t| Node::Elem { tag: t, vr: other, data: value_bytes(&mut r, other, Some(false)) }) }
